@@ -65,6 +65,41 @@ LISTS = ["- a\n- b\n", "- a\n\n- b\n", "1. x\n2. y\n", "- a\n\n  second para\n- 
          "1. x\n\n   > quote\n   >\n\n2. y\n", "> 1. x\n>\n>    more\n> 2. y\n", "- a\n\n  > - in\n  >\n  > - ner\n\n- b\n"]
 
 
+def list_shapes(text):
+    """[(tight as parsed, every item holds a single block)] for every list of the document, in document order"""
+    from flowmark.formats.flowmark_markdown import flowmark_markdown
+    doc = flowmark_markdown().parse(text)
+    out = []
+
+    def walk(e):
+        if type(e).__name__ == "List":
+            items = [c for c in e.children if type(c).__name__ == "ListItem"]
+            single = all(len([b for b in it.children if type(b).__name__ != "BlankLine"]) <= 1 for it in items)
+            out.append((bool(e.tight), single))
+        ch = getattr(e, "children", None)
+        if isinstance(ch, list):
+            for c in ch:
+                walk(c)
+    walk(doc)
+    return out
+
+
+def _count_items(text, k):
+    from flowmark.formats.flowmark_markdown import flowmark_markdown
+    doc = flowmark_markdown().parse(text)
+    counts = []
+
+    def walk(e):
+        if type(e).__name__ == "List":
+            counts.append(len([c for c in e.children if type(c).__name__ == "ListItem"]))
+        ch = getattr(e, "children", None)
+        if isinstance(ch, list):
+            for c in ch:
+                walk(c)
+    walk(doc)
+    return counts[k] if k < len(counts) else 0
+
+
 def strip_item_blank_lines(text):
     """canonical view modulo blank lines: drop every blank (or prefix-only) line"""
     return [l for l in text.split("\n") if l.strip(" >") != ""]
@@ -108,6 +143,16 @@ def bounded(tier, seed):
                              "got": outs[m], "want": outs[ListSpacing.preserve]})
         if reformat_text(outs[ListSpacing.preserve], list_spacing=ListSpacing.preserve, semantic=False, cleanups=False) != outs[ListSpacing.preserve]:
             viol.append({"clause": "preserve_keeps_as_authored", "input": {"text": d}, "got": outs[ListSpacing.preserve]})
+        # tight makes tight exactly the lists whose items each hold a single block; loose makes every list loose
+        shapes_in = list_shapes(d)
+        shapes_tight, shapes_loose = list_shapes(outs[ListSpacing.tight]), list_shapes(outs[ListSpacing.loose])
+        counts = [_count_items(d, k) for k in range(len(shapes_in))]
+        # (a list of one item has no separators: whether it re-parses as tight says nothing about the mode)
+        if len(shapes_tight) == len(shapes_in) and any(n > 1 and t != single for (t, _), (_, single), n in zip(shapes_tight, shapes_in, counts)):
+            viol.append({"clause": "tight_exactly_single_block_lists", "input": {"text": d}, "got": outs[ListSpacing.tight],
+                         "want": [single for _, single in shapes_in]})
+        if len(shapes_loose) == len(shapes_in) and any(t and n > 1 for (t, _), n in zip(shapes_loose, counts)):
+            viol.append({"clause": "loose_makes_all_loose", "input": {"text": d}, "got": outs[ListSpacing.loose]})
         for m, o in outs.items():
             ls = o.split("\n")
             if ls[0].strip(" >") == "":
@@ -127,6 +172,6 @@ def bounded(tier, seed):
             "samples": [{"heading": HEADINGS[1]}, {"list": LISTS[4]}],
             "rule": "12 heading shapes x 2 contexts: cleanups on vs off differ only in the heading line and only for wholly-bold "
                     "headings; 17 list shapes (nested, quoted, lists opening a quote, items ending in quotes / headings / link definitions, footnote, multi-block, code) + seeded pairs: the three list-spacing "
-                    "modes agree modulo blank lines, preserve is a fixed point, loose separates sibling items, every item marker line in loose mode follows a separator line, no output starts with a separator line; distinct = distinct "
+                    "modes agree modulo blank lines, preserve is a fixed point, tight mode leaves tight exactly the lists whose items each hold one block (re-parsed), loose mode leaves no multi-item list tight, loose separates sibling items, every item marker line in loose mode follows a separator line, no output starts with a separator line; distinct = distinct "
                     "baseline outputs",
             "exhaustive": False, "bound": "%d documents" % (len(HEADINGS) * 2 + len(docs))}
